@@ -292,32 +292,56 @@ def all_keys(u, arities=(0, 1, 2), names=('', 'n')):
             yield tuple(combo)
 
 
-def observe(u, ri, arities=(0, 1), names=('', 'n'), objects=True, provided_idx=None):
-    """Deterministic summary of everything a registry answers (used for differential checks)."""
+def observe(u, ri, arities=(0, 1), names=('', 'n'), objects=True, provided_idx=None, pool2=(1, 3, 4, 6)):
+    """Deterministic summary of everything a registry answers (used for differential checks).
+    Arity-2 keys range over the sub-pool `pool2` of the lookup pool."""
     reg = u.regs[ri]
     pool = u.lookup_pool()
     out = {}
     provs = range(len(u.P)) if provided_idx is None else provided_idx
-    for combo in all_keys(u, arities):
-        specs = [pool[c] for c in combo]
-        for pi in provs:
-            p = u.P[pi]
-            for nm in names:
-                out[('lookup', combo, pi, nm)] = _tag(reg.lookup(specs, p, nm))
-            out[('lookupAll', combo, pi)] = sorted((n_, _tag(v)) for n_, v in reg.lookupAll(specs, p))
-            out[('subscriptions', combo, pi)] = [_tag(v) for v in reg.subscriptions(specs, p)]
-        out[('handlers', combo)] = [_tag(v) for v in reg.subscriptions(specs, None)]
+    for a in arities:
+        idx = range(len(pool)) if a < 2 else pool2
+        for combo in itertools.product(idx, repeat=a):
+            specs = [pool[c] for c in combo]
+            for pi in provs:
+                p = u.P[pi]
+                for nm in names:
+                    # first touch of the key carries an explicit default (a miss must not cache it)
+                    d1 = reg.lookup(specs, p, nm, _D1)
+                    out[('lookup', combo, pi, nm)] = _tag(reg.lookup(specs, p, nm))
+                    d2 = reg.lookup(specs, p, nm, _D2)
+                    out[('lookup-default', combo, pi, nm)] = (_tag(d1), _tag(d2))
+                    if a == 1:
+                        out[('lookup1', combo, pi, nm)] = _tag(reg.lookup1(specs[0], p, nm))
+                la = reg.lookupAll(specs, p)
+                out[('lookupAll', combo, pi)] = sorted((n_, _tag(v)) for n_, v in la)
+                out[('names', combo, pi)] = sorted(reg.names(specs, p))
+                out[('subscriptions', combo, pi)] = [_tag(v) for v in reg.subscriptions(specs, p)]
+            out[('handlers', combo)] = [_tag(v) for v in reg.subscriptions(specs, None)]
     if objects:
         for oi, ob in enumerate(u.objects):
             for pi in provs:
                 for nm in names:
                     out[('queryAdapter', oi, pi, nm)] = _tag(reg.queryAdapter(ob, u.P[pi], nm))
+                    out[('adapter_hook', oi, pi, nm)] = _tag(reg.adapter_hook(u.P[pi], ob, nm))
+                out[('subscribers', oi, pi)] = [_tag(v) for v in reg.subscribers([ob], u.P[pi])]
+        if 2 in arities:
+            for oi in (0, 2):
+                for oj in (0, 1):
+                    for pi in provs:
+                        out[('queryMultiAdapter', oi, oj, pi)] = _tag(
+                            reg.queryMultiAdapter([u.objects[oi], u.objects[oj]], u.P[pi], ''))
     return out
+
+
+_D1, _D2 = 'default-1', 'default-2'
 
 
 def _tag(v):
     if isinstance(v, Val):
         return v.tag
+    if isinstance(v, tuple) and v and v[0] == 'made-by':
+        return ('made-by', v[1]) + tuple(type(x).__name__ for x in v[2:])
     if isinstance(v, tuple):
         return tuple(_tag(x) for x in v)
     if v is None or isinstance(v, (str, int)):
